@@ -145,19 +145,24 @@ func fConcRound(r *rng, round int) (res fRoundResult) {
 	for i := range qs {
 		qs[i] = pick(r, pool)
 	}
-	// sequential reference on a fresh engine, hooks off
-	fSetHooks(false)
-	ss := world.storage(nil, false)
-	sg := fBuild(ss)
+	// the sequential reference (fresh engine, hooks off) is computed AFTER the first concurrent run: computing it
+	// first would warm whatever the process remembers per name before any two queries are in flight together
 	wantSet := make([]string, m)
 	wantExact := make([]string, m)
-	for i, q := range qs {
-		wantSet[i], wantExact[i] = fSetAnswer(sg, q)
-		if !strings.Contains(wantSet[i], "[]") || strings.Contains(wantSet[i], "rule=-") {
-			res.nontrivial++
+	haveWant := false
+	reference := func() {
+		fSetHooks(false)
+		ss := world.storage(nil, false)
+		sg := fBuild(ss)
+		for i, q := range qs {
+			wantSet[i], wantExact[i] = fSetAnswer(sg, q)
+			if !strings.Contains(wantSet[i], "[]") || strings.Contains(wantSet[i], "rule=-") {
+				res.nontrivial++
+			}
 		}
+		_ = ss.Close()
+		haveWant = true
 	}
-	_ = ss.Close()
 	gs := []int{2, 3 + r.n(6), 9 + r.n(24)}
 	res.desc = fmt.Sprintf("round %d: %d queries over %v goroutines; %s", round, m, gs, world.describe())
 	for _, g := range gs {
@@ -188,6 +193,9 @@ func fConcRound(r *rng, round int) (res fRoundResult) {
 			close(start)
 			wg.Wait()
 			fSetHooks(false)
+			if !haveWant {
+				reference()
+			}
 			for i := range qs {
 				res.evals++
 				if gotSet[i] != wantSet[i] {
@@ -245,6 +253,27 @@ func fRaceMain(seed uint64, rounds int) int {
 		}
 		if len(res.mismatches) > 0 && len(mism) >= 5 {
 			break
+		}
+	}
+	// trials about names that never occurred in this process before (race_c14_fresh.go), in-process
+	fr := newRng(seed ^ 0x5EED0F2E5)
+	tok := fFreshToken(fr.u64())
+	for i := 0; i < (rounds+9)/10 && len(mism) < 5; i++ {
+		fmt.Fprintf(os.Stderr, "c14race: fresh-name trial %d (token %s)\n", i, tok)
+		res := fFreshTrial(fr, tok, i)
+		evals += res.evals
+		dup += res.dupOnly
+		nontrivial += res.nontrivial
+		for _, d := range res.dupSamples {
+			if dupShown < 3 {
+				dupShown++
+				fmt.Println("SETS-ONLY " + strings.ReplaceAll(d, "\n", "\\n"))
+			}
+		}
+		for _, m := range res.mismatches {
+			if len(mism) < 5 {
+				mism = append(mism, m+" ## "+res.desc)
+			}
 		}
 	}
 	for _, m := range mism {
